@@ -276,8 +276,8 @@ def torch_runs(run, tier, rng, root, traces, computer=None, seed=5, combos=None,
                 continue
             # --channel -1: only the mono utterances; --channel 1: only the channels-first stereo one
             chosen = [s for s in spec if (s[2] == "npy2") == (channel == 1)]
-            if qi and not with_comp:
-                continue
+            if qi == 2 and not with_comp:
+                continue  # (Stack then Deltas of a raw column: nothing new over qi == 1)
             if any(isinstance(c, dict) and c.get("name") == "stack" for c in post_cfg):
                 chosen = [s for s in chosen if len(s[3]) >= 400]  # Standardize/Stack on an empty matrix is not the tool's business
             mp = os.path.join(d, "map_%d" % channel)
